@@ -286,10 +286,24 @@ def generic(v):
     return _ADDR.sub("", repr(v))
 
 
+_KNOWN_ATTRS = {"loop", "_cached", "_closed", "_finalize_data", "_loops", "_padded_size", "_padding", "_render_args",
+                "_render_data", "_renderable_data", "_iterator", "_renderable"}
+_KNOWN_LOCALS = {"loop", "frame_no", "frame_count", "definite", "render_args"} | _STALE_LOCALS | _OWN_LOCALS
+_KNOWN_FIELDS = {"size", "frame_offset", "seek_whence", "duration", "iteration"}
+
+
+def framekey(f):
+    try:
+        return (f[0], durkey(f[1]), tuple(f[2]), f[3]) + tuple(generic(x) for x in f[4:])
+    except Exception:
+        return generic(f)
+
+
 def impl_canon(im):
-    """Everything the future behaviour of the iterator depends on (see c08.py for the argument): every
-    instance attribute, every live local of the suspended generator (by name-independent, generic capture, so
-    state added by a changed implementation is seen too), the whole cache, the render data fields."""
+    """Everything the future behaviour of the iterator depends on (see c08.py for the argument).  The state
+    the current implementation has is read field by field; anything else found in the instance, in the live
+    locals of the suspended generator, in a cache entry or in the render data namespace (state added by a
+    changed implementation) is captured generically, so that it cannot be merged away."""
     it, r = im.it, im.r
     base = (r.tell(), r.stream_pos, it.loop)
     if it._closed:
@@ -298,12 +312,22 @@ def impl_canon(im):
     if fr is None:                               # generator finished but the iterator was not closed
         return ("dead",) + base
     loc = fr.f_locals
+    d = it._renderable_data
     cache = loc.get("cache")
-    csig = None if cache is None else tuple(generic(e) for e in cache)
-    locs = tuple(sorted((k, generic(v)) for k, v in loc.items() if k not in _STALE_LOCALS and k not in _OWN_LOCALS))
-    attrs = tuple(sorted((k, generic(v)) for k, v in it.__dict__.items() if k not in ("_iterator", "_renderable")))
-    return ("open", base, fr.f_lineno, locs, attrs, generic(it._renderable_data.as_dict()),
-            it._render_data.finalized, csig)
+    csig = None
+    if cache is not None:
+        csig = tuple((None if e[0] is None else framekey(e[0]), None if e[1] is None else tuple(e[1]), durkey(e[2]),
+                      None if e[3] is None else argkey(e[3])) + tuple(generic(x) for x in e[4:])
+                     if type(e) is tuple and len(e) >= 4 else generic(e) for e in cache)
+    extra = [(k, generic(v)) for k, v in loc.items() if k not in _KNOWN_LOCALS]
+    extra += [(k, generic(v)) for k, v in it.__dict__.items() if k not in _KNOWN_ATTRS]
+    fields = type(d).get_fields()
+    if len(fields) != 5:
+        extra += [(k, generic(getattr(d, k, None))) for k in fields if k not in _KNOWN_FIELDS]
+    return ("open", base, d.frame_offset, d.seek_whence.name, tuple(d.size), durkey(d.duration), d.iteration,
+            loc["loop"], loc.get("frame_no"), fr.f_lineno, argkey(it._render_args), repr(it._padding),
+            tuple(it._padded_size), bool(it._cached), it._loops, it._finalize_data, it._render_data.finalized, csig,
+            tuple(sorted(extra)))
 
 
 # ------------------------------------------------------------------------------ alphabets
